@@ -22,6 +22,7 @@
 import Mhd.Proofs.ConnMem
 import Mhd.Proofs.ConnRead
 import Mhd.Proofs.ConnReadCfg
+import Mhd.Proofs.ConnReadSync
 import Mhd.Props.C02
 import Mhd.Props.C08
 
@@ -113,7 +114,9 @@ request is parsed from the arena base.  Every change of the window is an operati
 buffer layer refuses is the phase `refused`.  The theorems hold for every arena size, every pool
 size / increment, every strictness level, every list of chunks (every byte stream × every segmentation,
 the empty chunk being an idle round without data) and every `Cfg`: every framing decision of
-`parse_connection_headers`, every keep-alive decision, every take pattern of the application. -/
+`parse_connection_headers`, every keep-alive decision, and every behaviour of the access handler the API
+permits as far as the buffers are concerned — first call: go on / early reply / MHD_NO; every upload call:
+any number of bytes taken or MHD_NO; final call: reply / MHD_NO; `Expect: 100-continue`. -/
 
 open Mhd.ConnRead in
 /-- **(1) no fault, no refused operation, windows inside the arena — for every client byte stream,
@@ -210,6 +213,24 @@ example :
      | .reqLine s => (s.buf.toList, x.cm.rbOff) == ([71, 69, 84], 3)
      | _ => false) = true := by decide +kernel
 
+/-- Non-vacuity, handler outcomes: (a) MHD_NO from the second upload call in the middle of a body: the connection
+    is closed at once, no buffer operation follows; (b) a reply queued by the first call: the body is never
+    read, closed after the reply; (c) `Expect: 100-continue` with an empty read buffer: CONTINUE_SENDING, then
+    the body is received. -/
+example :
+    (let head : List UInt8 := [80, 32, 47, 32, 72, 84, 84, 80, 47, 49, 46, 49, 13, 10, 13, 10]
+     let cfgNo : Mhd.ConnRead.Cfg := { exCfg (.len 9) with refuse := fun k => k != 1 }
+     let cfgEarly : Mhd.ConnRead.Cfg := { exCfg (.len 9) with first := fun _ _ => .reply }
+     let cfg100 : Mhd.ConnRead.Cfg := { exCfg (.len 3) with expect100 := fun _ _ => true }
+     let a := Mhd.ConnRead.run cfgNo (Mhd.ConnRead.init 256 256 16 0) [head ++ [97, 98, 99, 100], []]
+     let b := Mhd.ConnRead.run cfgEarly (Mhd.ConnRead.init 256 256 16 0) [head ++ [97, 98, 99, 100]]
+     let c1 := Mhd.ConnRead.run cfg100 (Mhd.ConnRead.init 256 256 16 0) [head]
+     let c2 := Mhd.ConnRead.run cfg100 (Mhd.ConnRead.init 256 256 16 0) [head, [], [97, 98]]
+     (match a.phase with | .error .closed => true | _ => false) &&
+     (match b.phase with | .error .closed => true | _ => false) &&
+     (match c1.phase with | .cont100 _ => !c1.wantsRead | _ => false) &&
+     (match c2.phase with | .body bd => bd.remaining == 1 | _ => false)) = true := by decide +kernel
+
 /-- Non-vacuity of the error outcome: a request line longer than anything the 64-byte arena can
     hold ends in the error phase `noSpace` (reply + close), not in a stuck state. -/
 example :
@@ -217,6 +238,26 @@ example :
      match x.phase with
      | .error .noSpace => true
      | _ => false) = true := by decide +kernel
+
+open Mhd.ConnRead in
+/-- **(2b) one arena.**  In every state of every run (whole pipelined sequences, every handler behaviour) the
+    buffer the phase carries — what the parsers of C02 and the chunk decoder of C03 work on — is exactly the
+    arena prefix `mem[0, read_buffer + read_buffer_offset)`, and the arena has the size of the pool: the
+    parsers and the buffer layer really work on the same bytes. -/
+theorem connread_one_arena (cfg : Mhd.ConnRead.Cfg) (allocSize poolSize inc : Nat) (lvl : Int) (ha : allocSize % A = 0)
+    (hs : allocSize < 2 ^ 62) (hp : poolSize ≤ allocSize) (chunks : List (List UInt8)) :
+    let x := Mhd.ConnRead.run cfg (Mhd.ConnRead.init allocSize poolSize inc lvl) chunks
+    ∀ b r, x.phase.view? = some (b, r) →
+      x.cm.p.mem.length = x.cm.p.size ∧ x.cm.p.mem.take b.size = b.toList := by
+  intro x
+  exact run_sync inc cfg chunks _ (init_safe allocSize poolSize inc lvl ha hs hp) (init_sync allocSize poolSize inc lvl)
+
+/-- Non-vacuity of (2b): after a complete request with a 5-byte body and the reset, the read-ahead `XY` is at the
+    arena base. -/
+example :
+    (let x := Mhd.ConnRead.run (exCfg (.len 5)) (Mhd.ConnRead.init 256 256 16 0)
+        [[80, 32, 47, 32, 72, 84, 84, 80, 47, 49, 46, 49, 13, 10, 13, 10, 97, 98, 99], [], [100, 101, 88, 89], [], []]
+     x.cm.p.mem.take 2 == [88, 89] && (x.phase.view?.map (·.1.toList)) == some [88, 89]) = true := by decide +kernel
 
 open Mhd.ConnRead in
 /-- **(2c) the body / chunk decoder reads below the fill level only.**  In every state of every run in the
@@ -238,7 +279,7 @@ open Mhd.ConnRead in
 /-- the decoder loop on a window `w`: whatever the chunk decoder decides (chunk terminator, size line,
     payload), `buffer_head` stays inside the window — the explicit `overrun` result is unreachable and the
     final `buffer_head − read_buffer` is at most `|w|` (so `available` never wraps) -/
-theorem body_decoder_within_window (lvl : Int) (take : Nat → Nat → Nat) (chunked : Bool) (w : List UInt8)
+theorem body_decoder_within_window (lvl : Int) (take : Nat → Nat → Option Nat) (chunked : Bool) (w : List UInt8)
     (fuel : Nat) (s : BL) (h : s.head ≤ w.length) :
     (∀ n, bodyLoop lvl take chunked w fuel s ≠ .overrun n) ∧
     (∀ s', bodyLoop lvl take chunked w fuel s = .ok s' → s'.head ≤ w.length) :=
@@ -257,15 +298,17 @@ example :
 open Mhd.ConnRead in
 /-- **internal look-ups consult header-kind elements only.**  The keep-alive decision (`keepalive_possible`:
     tokens `close` / `Keep-Alive` of the request's `Connection` field) and the framing decision
-    (`parse_connection_headers`: Host, Transfer-Encoding, Content-Length, Cookie) of the standard
-    configuration are functions of the elements of kind MHD_HEADER_KIND alone: query arguments (with or
+    (`parse_connection_headers`: Host, Transfer-Encoding, Content-Length, Cookie) and `need_100_continue`
+    (Expect) of the standard configuration are functions of the elements of kind MHD_HEADER_KIND alone: query arguments (with or
     without value), cookies or trailers named like these fields cannot influence them. -/
-theorem internal_lookups_header_kind_only (lvl : Int) (pat : List Nat) (buf : Mhd.Req.Bytes) (rq : Rq) :
-    (mkCfg lvl pat).keepAlive buf rq =
-      (mkCfg lvl pat).keepAlive buf { rq with elems := rq.elems.filter (fun e => e.kind == Mhd.Gen.Http.kindHeader) } ∧
-    (mkCfg lvl pat).frame buf rq =
-      (mkCfg lvl pat).frame buf { rq with elems := rq.elems.filter (fun e => e.kind == Mhd.Gen.Http.kindHeader) } :=
-  ⟨keepAlive_header_kind_only lvl pat buf rq, frame_header_kind_only lvl pat buf rq⟩
+theorem internal_lookups_header_kind_only (lvl : Int) (pat : List (Option Nat)) (f : HRes) (l : Bool)
+    (buf : Mhd.Req.Bytes) (rq : Rq) :
+    let hdrOnly : Rq := { rq with elems := rq.elems.filter (fun e => e.kind == Mhd.Gen.Http.kindHeader) }
+    (mkCfg lvl pat f l).keepAlive buf rq = (mkCfg lvl pat f l).keepAlive buf hdrOnly ∧
+    (mkCfg lvl pat f l).frame buf rq = (mkCfg lvl pat f l).frame buf hdrOnly ∧
+    (mkCfg lvl pat f l).expect100 buf rq = (mkCfg lvl pat f l).expect100 buf hdrOnly :=
+  ⟨keepAlive_header_kind_only lvl pat f l buf rq, frame_header_kind_only lvl pat f l buf rq,
+   expect100_header_kind_only lvl pat f l buf rq⟩
 
 /-- Non-vacuity: `GET /?Connection HTTP/1.1` + `Connection: close`: the valueless query argument named
     `Connection` is in the element list (kind GET_ARGUMENT, value NULL) but the decision comes from the
